@@ -40,19 +40,23 @@ def run_case(case, rec):
     declare = r.choice([True, True, False])
     missing = r.choice([True, False])
     reqs = []
+    two_versions = r.random() < 0.35      # two versions of the provider installed, both declared as dependencies
     if declare:
         reqs.append(('e', '1'))
+        if two_versions:
+            reqs.append(('e', '2'))
     if missing:
         reqs.append(('g', '9'))
     L = doc.gen_lexicon(r, '1.1', 'l', '1', pl, requires=reqs or None, language='ja')
     E1 = doc.gen_lexicon(r, '1.1', 'e', '1', pe, language='en')
     E2 = doc.gen_lexicon(r, '1.1', 'f', '1', pe, language='en')
+    E1b = doc.gen_lexicon(r, '1.1', 'e', '2', pe, language='en') if two_versions else None
     work = env.mkdtemp('c12')
     borrowed = placeholders = 0
     try:
         with env.FreshDB():
             m = ModelDB()
-            order = [L, E1, E2]
+            order = [L, E1, E2] + ([E1b] if E1b else [])
             r.shuffle(order)
             for i, lx in enumerate(order):
                 res = {'lmf_version': '1.1', 'lexicons': [lx]}
@@ -79,7 +83,7 @@ def run_case(case, rec):
                 elif should_warn and 'g:9' not in warned[0]:
                     rec.violation('missing-dependency-warning', f'warning does not name the missing dependency: {warned}')
                 if exp is None:
-                    model_exp = ['e:1'] if declare else []
+                    model_exp = (['e:1'] + (['e:2'] if two_versions else [])) if declare else []
                 elif exp == '*':
                     model_exp = sorted(m.lex)
                 else:
@@ -116,12 +120,24 @@ def run_case(case, rec):
                         d = diff(Bag(want), got)
                         if d:
                             rec.violation('hypernym-paths-expanded', f'expand={label}: {key}.hypernym_paths(): ' + fmt(d))
+                        # closure over the same (partly borrowed) hypernymy: everything reachable, placeholders included, once
+                        reach, todo = [], [t for t in hyp_targets(view, key)]
+                        while todo:
+                            t = todo.pop(0)
+                            if t not in reach:
+                                reach.append(t)
+                                todo.extend(hyp_targets(view, t))
+                        got_c = [_pk(y) for y in x.closure(*HYP)]
+                        rec.event('closure.compared')
+                        if sorted(got_c) != sorted(reach):
+                            rec.violation('closure-expanded', f'expand={label}: {key}.closure{HYP} = {got_c}, reachable over own and borrowed '
+                                          f'hypernymy: {reach}')
             # the dependent lexicon selected together with its provider: the default expand set is still made of the
             # declared, installed dependencies (being selected as well does not take a lexicon out of it)
             with warnings.catch_warnings():
                 warnings.simplefilter('ignore')
                 w2 = wn.Wordnet('l:1 e:1')
-            want2 = ['e:1'] if declare else []
+            want2 = (['e:1'] + (['e:2'] if two_versions else [])) if declare else []
             got2 = sorted({x.specifier() for x in w2.expanded_lexicons()})
             rec.event('expand.both-selected')
             if got2 != want2:
@@ -147,7 +163,7 @@ def run_case(case, rec):
             rec.state(case['seed'])
     finally:
         env.rmtree(work)
-    rec.done(doc.canonical_hash([L, E1, E2]), nontrivial=borrowed > 0 and placeholders > 0,
+    rec.done(doc.canonical_hash([L, E1, E2] + ([E1b] if E1b else [])), nontrivial=borrowed > 0 and placeholders > 0,
              sample={'declared': reqs, 'borrowed_relations': borrowed, 'placeholders': placeholders})
 
 
